@@ -631,6 +631,13 @@ class Extractor:
                 paths = [self.fold(st, stmts[i + 1], p, bound) if not p.done else p for p in paths]
                 i += 2
                 continue
+            # iterator idiom:  x = next(IT, None) ; while x: BODY ; x = next(IT, None)   ==   for x in IT: BODY
+            # (elements are records / objects, never falsy)
+            if i + 1 < len(stmts) and self._next_loop(st, stmts[i + 1]):
+                w = stmts[i + 1]
+                st = ast.For(target=ast.Name(id=st.targets[0].id, ctx=ast.Store()), iter=st.value.args[0],
+                             body=w.body[:-1] or [ast.Pass()], orelse=[], lineno=w.lineno, col_offset=0)
+                i += 1
             new = []
             for p in paths:
                 if p.done:
@@ -640,6 +647,20 @@ class Extractor:
             paths = new
             i += 1
         return paths
+
+    @staticmethod
+    def _next_loop(a, w) -> bool:
+        def is_next(st):
+            return isinstance(st, ast.Assign) and len(st.targets) == 1 and isinstance(st.targets[0], ast.Name) \
+                and isinstance(st.value, ast.Call) and isinstance(st.value.func, ast.Name) \
+                and st.value.func.id == 'next' and len(st.value.args) == 2 \
+                and isinstance(st.value.args[1], ast.Constant) and st.value.args[1].value is None
+        if not (is_next(a) and isinstance(w, ast.While) and not w.orelse and w.body and is_next(w.body[-1])):
+            return False
+        x = a.targets[0].id
+        return isinstance(w.test, ast.Name) and w.test.id == x and w.body[-1].targets[0].id == x \
+            and ast.dump(w.body[-1].value.args[0]) == ast.dump(a.value.args[0]) \
+            and not any(isinstance(n, (ast.Break, ast.Continue)) for s_ in w.body for n in ast.walk(s_))
 
     @staticmethod
     def _target_key(t):
@@ -812,6 +833,8 @@ class Extractor:
             return self.block(st.body, [p], bound)
         if isinstance(st, ast.While):
             return self.while_loop(st, p, bound)
+        if isinstance(st, ast.Pass):
+            return [p]
         if isinstance(st, ast.Continue):
             p.effects.append(('continue',))
             p.done = True
